@@ -9,7 +9,7 @@ import re
 import z3
 
 from domains import Num
-from interp import (ListIter, TakeIter, remaining_len, EnumVal, Array, ChainIter, ClonedIter, EnumerateIter, MapIter, OnceIter, Opt, Panic, Ref,
+from interp import (ResV, CFV, ListIter, TakeIter, remaining_len, EnumVal, Array, ChainIter, ClonedIter, EnumerateIter, MapIter, OnceIter, Opt, Panic, Ref,
                     RevIter, SkipIter, SliceIter, SliceRef, Struct, Tuple, UNIT, Unsupported, VecIntoIter,
                     VecV, ZipIter, clone_value, into_iter, read_path, write_path, IterBase)
 
@@ -95,6 +95,10 @@ def try_builtin(it, callee, args):
             return dom.abs(a[0])
         if name == "min":
             return dom.min(a[0], a[1])
+        if name == "copysign":
+            return dom.copysign(a[0], a[1])
+        if name == "signum":
+            return dom.copysign(dom.const(1.0), a[0])
         if name == "powi" and isinstance(args[1], int) and 0 <= args[1] <= 16:
             r = dom.const(1.0)
             for _ in range(args[1]):
@@ -132,6 +136,59 @@ def try_builtin(it, callee, args):
         used("f64 " + m.group(1))
         write_path(r.cell, r.path, it.binop(op, cur, b))
         return UNIT
+    # ---- Result / the `?` operator
+    if re.match(r"^<(?:std::result::)?Result<.*> as Try>::branch$", c, re.S) and isinstance(args[0], ResV):
+        r = args[0]
+        used("Result::branch (?)")
+        return CFV(False, r.fields[0]) if r.ok else CFV(True, ResV(False, r.fields[0]))
+    if re.match(r"^<(?:std::result::)?Result<.*> as FromResidual<.*>>::from_residual$", c, re.S) and isinstance(args[0], ResV):
+        return ResV(False, args[0].fields[0])
+    m = re.match(r"^(?:std::result::)?Result::<.*>::(unwrap|expect|is_ok|is_err|ok|unwrap_or)$", c, re.S)
+    if m and isinstance(args[0], ResV):
+        r = args[0]
+        if m.group(1) in ("unwrap", "expect"):
+            if not r.ok:
+                raise Panic("called `Result::unwrap()` on an `Err` value")
+            return r.fields[0]
+        if m.group(1) == "is_ok":
+            return r.ok
+        if m.group(1) == "is_err":
+            return not r.ok
+        if m.group(1) == "ok":
+            return Opt(r.fields[0], True) if r.ok else Opt(None, False)
+        return r.fields[0] if r.ok else args[1]
+    # ---- sorting (comparator returning Ordering): insertion sort -- for a consistent comparator the outcome is the unique
+    #      stable sorted order whatever algorithm std uses
+    m = re.match(r"^(?:std|core)::slice::<impl \[(.*)\]>::(sort_by|sort_unstable_by)(?:::<.*>)?$", c, re.S)
+    if m:
+        used("[T]::sort_by")
+        sl = as_slice(args[0])
+        from interp import Cell as _Cell
+        cl = _Cell(args[1])
+        n = len(sl)
+        for i in range(1, n):
+            j = i
+            while j > 0:
+                ra, rb = elem_ref(sl, j), elem_ref(sl, j - 1)
+                o = it.call_closure(cl, [ra, rb])
+                if not (isinstance(o, EnumVal) and o.disc == -1):
+                    break
+                va, vb = read_path(ra.cell, ra.path), read_path(rb.cell, rb.path)
+                write_path(ra.cell, ra.path, vb)
+                write_path(rb.cell, rb.path, va)
+                j -= 1
+        return UNIT
+    m = re.match(r"^(?:std|core)::slice::<impl \[(.*)\]>::swap$", c, re.S)
+    if m:
+        sl = as_slice(args[0])
+        i, j = args[1], args[2]
+        if i >= len(sl) or j >= len(sl):
+            raise Panic("index out of bounds in swap")
+        ra, rb = elem_ref(sl, i), elem_ref(sl, j)
+        va, vb = read_path(ra.cell, ra.path), read_path(rb.cell, rb.path)
+        write_path(ra.cell, ra.path, vb)
+        write_path(rb.cell, rb.path, va)
+        return UNIT
     # ---- explicit closure calls through the Fn traits
     m = re.match(r"^<(.*) as (Fn|FnMut|FnOnce)<(.*)>>::(call|call_mut|call_once)$", c, re.S)
     if m and len(args) == 2:
@@ -150,6 +207,9 @@ def try_builtin(it, callee, args):
             closure = _Cell(cl)
         a = args[1]
         return it.call_closure(closure, list(a.fields) if isinstance(a, Tuple) else ([] if a is UNIT else [a]))
+    m = re.match(r"^(?:std::ops::)?RangeInclusive::<usize>::new$", c)
+    if m:
+        return Struct("RangeInclusive", [args[0], args[1], False])
     # ---- bool helpers
     m = re.match(r"^core::bool::<impl bool>::(then_some|then)(?:::<.*>)?$", c)
     if m:
@@ -402,8 +462,10 @@ def try_builtin(it, callee, args):
         raise Unsupported("Option method " + name)
     # ---- iterators
     m = re.match(r"^<(.*) as (Iterator|DoubleEndedIterator|ExactSizeIterator|IntoIterator|Clone)>::(\w+)(?:::<.*>)?$", c, re.S)
+    def _rangeish(x):
+        return isinstance(x, Struct) and x.name in ("Range", "RangeInclusive")
     if m and (isinstance(deref(args[0]) if args else None, (IterBase, VecV, SliceRef, Array)) or
-              (args and isinstance(args[0], (SliceRef,)))):
+              (args and isinstance(args[0], (SliceRef,))) or (args and _rangeish(deref(args[0])))):
         name = m.group(3)
         used("Iterator::" + name)
         a0 = args[0]
@@ -414,6 +476,10 @@ def try_builtin(it, callee, args):
         if name == "next":
             x = deref(a0).next(it)
             return Opt(x, True) if x is not None else Opt(None, False)
+        if _rangeish(deref(a0)):
+            if isinstance(a0, Ref) and name in ("next", "next_back"):
+                raise Unsupported("in-place iteration of a Range struct")
+            a0 = deref(a0)
         itr = into_iter(deref(a0) if isinstance(deref(a0), IterBase) else a0)
         if name == "rev":
             return RevIter(itr)
@@ -455,13 +521,20 @@ def try_builtin(it, callee, args):
         if name == "enumerate":
             return EnumerateIter(itr)
         if name == "collect":
+            into_result = re.search(r"::collect::<(?:std::result::)?Result<", c) is not None
             out = []
             while True:
                 x = itr.next(it)
                 if x is None:
                     break
+                if into_result:
+                    if not isinstance(x, ResV):
+                        raise Unsupported("collect::<Result<..>> over non-Result items")
+                    if not x.ok:
+                        return ResV(False, x.fields[0])
+                    x = x.fields[0]
                 out.append(x)
-            return VecV(out)
+            return ResV(True, VecV(out)) if into_result else VecV(out)
         if name == "for_each":
             from interp import Cell as _Cell
             cl = _Cell(args[1])
